@@ -1516,7 +1516,10 @@ fn dgram_case(c: &mut Case) -> Result<Vec<u64>, BadCase> {
                     1 => phase!(r.recv_multi(0), b => b.len() as u64, 0, 0, &b[..]),
                     2 => phase!(r.recv_from_multi(), b => b.data().len() as u64,
                                 addr_code(0, b.addr().as_ref()), 0, b.data()),
-                    _ => phase!(r.recv_msg_multi(64), b => b.data().len() as u64,
+                    // the reserved control length varies with the case (also values that are not a
+                    // multiple of the cmsg alignment): the payload must be found behind it all the same
+                    _ => phase!(r.recv_msg_multi([64usize, 20, 33, 16, 7][(n + mcount as usize) % 5]),
+                                b => b.data().len() as u64,
                                 addr_code(0, b.addr().as_ref()),
                                 b.flags().bits() as u64 & TRUNC_BIT, b.data()),
                 }
